@@ -122,6 +122,9 @@ func (g *gen) shape(small bool) Shape {
 	}
 	if r.Chance(0.25) {
 		sh.Holes = r.Pick(1, 1, 2)
+		if !small && r.Chance(0.12) {
+			sh.Holes = r.Pick(9, 64, 70, 100) // many holes (rare)
+		}
 	}
 	if r.Chance(0.2) {
 		sh.Lattice = true
@@ -169,12 +172,23 @@ func (g *gen) recipe(kind string, depth int, small bool) Recipe {
 		if rc.Shape.Jag == 0 && r.Chance(0.7) {
 			rc.Shape.Jag = 0.5
 		}
+		if rc.Via == "ctor" && depth == 0 && r.Chance(0.2) {
+			rc.Via = "move"
+			rc.Shape.Meters = r.Coord(-3, 3)
+			rc.Shape.Steps = r.Range(-20, 20)
+		}
 	case "Polygon":
 		if r.Chance(0.1) {
 			rc.Members = geomMembers[r.Intn(len(geomMembers))]
 		}
 		if rc.Via == "ctor" && r.Chance(0.03) {
 			rc.Shape.N = 0 // NewPolygon(nil)
+		}
+		if rc.Via == "ctor" && depth == 0 && r.Chance(0.25) {
+			// built from parts of other geometry objects (public API)
+			rc.Via = r.PickS("move", "literal")
+			rc.Shape.Meters = r.Coord(-3, 3)
+			rc.Shape.Steps = r.Range(-20, 20)
 		}
 	case "Rect":
 		rc.Opts.AllowRects = true
@@ -526,11 +540,11 @@ func genSpec(seed uint64, worker, run int, tier string) (*Spec, *Rng, faultSet) 
 		g.sweep(s, hot, fs)
 	case k < 12:
 		g.crowd(s, hot, fs)
-	case k < 14:
+	case k < 15:
 		g.marathon(s, hot, fs, tier)
-	case k < 20:
+	case k < 21:
 		g.argstorm(s, fs)
-	case k < 24:
+	case k < 25:
 		g.duel(s)
 	}
 	s.Order = r.Perm(len(s.Tasks))
@@ -576,9 +590,9 @@ func (g *gen) marathon(s *Spec, hot []int, fs faultSet, tier string) {
 	r := g.r
 	nt := r.Pick(2, 2, 3)
 	h := hot[0]
-	lo, hi := 150, 700
+	lo, hi := 300, 1500
 	if tier == "thorough" {
-		lo, hi = 400, 3000
+		lo, hi = 800, 6000
 	}
 	// a small repertoire repeated many times, so that per-object and per-method
 	// counters really reach high values
